@@ -370,3 +370,15 @@ Print Assumptions C13_single_contract_verdict_equal_partial.
 Print Assumptions C13_single_contract_verdict_equal_exact.
 Print Assumptions C13_single_contract_verdict_equal_refuted.
 Print Assumptions C13_single_contract_absolute_index.
+
+(* for a contract without callsub / retsub the side condition of the equality is plain graph reachability: some exit is
+   reachable from the entry through unvalidated blocks whenever some exit is unvalidated *)
+Theorem C13_single_contract_side_condition_is_reachability :
+  forall (f : func) (r : fn_result) (checks : bctx -> bool),
+       subroutine_free f ->
+       leaves_justified f r checks <->
+       ((exists b : nat, fn_leaf_block f b /\ contract_validated r checks b = false) ->
+        exists (b : nat) (blk : block), UReach f (contract_validated r checks) b /\ fblock f b = Some blk /\ leaf_global f blk = true).
+Proof. exact leaves_justified_subroutine_free. Qed.
+
+Print Assumptions C13_single_contract_side_condition_is_reachability.
